@@ -209,6 +209,13 @@ func (NetH) Gen(prop string, seed uint64, tier string) *hx.Case {
 			ops = append(ops, hx.J(m))
 		}
 	}
+	// direct calls of library parsers (no peer involved)
+	if r.Chance(0.5) {
+		for k := r.Range(1, 25); k > 0; k-- {
+			id++
+			ops = append(ops, hx.J(NetMsg{P: r.Intn(cfg.Peers), ID: id, Seed: r.U64(), Cmd: "lib", Kind: "lib"}))
+		}
+	}
 	// interleave the peers' sequences; the order within a peer is kept (in one case out of ten it is not:
 	// messages before the handshake, replies before requests)
 	if r.Chance(0.1) {
@@ -1274,6 +1281,10 @@ func (NetH) Run(t *testing.T, c *hx.Case) *hx.Outcome {
 			}
 			r := hx.NewRng(m.Seed)
 			n.syncModel()
+			if m.Cmd == "lib" {
+				n.libCall(m, r)
+				continue
+			}
 			pl := n.payload(m, r)
 			raw := wireMsg(m.Cmd, pl, m.HdrMut, r)
 			conn := n.conns[m.P]
